@@ -511,3 +511,41 @@ pub fn c13_nn_scaling() {
     }
     kani::cover!(s[0].0 == 3 && z[0].0 == 4);
 }
+
+/// nonnegative cone at f64 over MANY orders of magnitude (s, z powers of two with an even exponent
+/// difference, s/z up to 2^±240, far beyond 1/eps): the diagonal block written into the KKT matrix is exactly
+/// s/z and it is the very operator mul_Hs applies - no capping, no flooring, whatever the ratio
+#[kani::proof]
+#[kani::unwind(4)]
+pub fn c13_nn_scaling_pow2_f64() {
+    const D: usize = 2;
+    let p2 = |lo: i32, hi: i32| {
+        let k: i32 = kani::any();
+        kani::assume(k >= lo && k <= hi);
+        (k, f64::from_bits(((1023 + k) as u64) << 52))
+    };
+    let mut c = NonnegativeCone::<f64>::new(D);
+    let (a0, s0) = p2(-120, 120);
+    let (b0, z0) = p2(-120, 120);
+    let (a1, s1) = p2(-120, 120);
+    let (b1, z1) = p2(-120, 120);
+    kani::assume((a0 - b0) % 2 == 0 && (a1 - b1) % 2 == 0); // exact square roots
+    let (s, z) = ([s0, s1], [z0, z1]);
+    let ok = c.update_scaling(&s, &z, 1.0, ScalingStrategy::PrimalDual);
+    assert!(ok);
+    let mut h = [0.0f64; D];
+    c.get_Hs(&mut h);
+    let (_, x0) = p2(-60, 60);
+    let x = [x0, -x0];
+    let mut hx = [0.0f64; D];
+    let mut work = [0.0f64; D];
+    c.mul_Hs(&mut hx, &x, &mut work);
+    let mut i = 0;
+    while i < D {
+        assert!(h[i] == s[i] / z[i], "KKT_block_is_exactly_s_over_z_at_every_magnitude");
+        assert!(hx[i] == h[i] * x[i], "KKT_block_is_the_operator_mul_Hs");
+        i += 1;
+    }
+    kani::cover!(a0 - b0 >= 100, "ratio far above 1/eps");
+    kani::cover!(b1 - a1 >= 100, "ratio far below eps");
+}
